@@ -21,7 +21,7 @@ func init() {
 	core.Register(&core.Engine{
 		Property: "C03",
 		Level:    "exploration",
-		Rule: "rounds of N in {1,2,3,4,5,8,16,33,64} simultaneously outstanding requests of mixed types (read, write, stat, walk, open, create, clunk, remove, wstat, attach) " +
+		Rule: "rounds of N in {1,2,3,4,5,8,16,33,64,66,100,200} simultaneously outstanding requests of mixed types (read, write, stat, walk, open, create, clunk, remove, wstat, attach) " +
 			"with per-request payloads, each held in the scripted implementation and finished in a chosen order: every permutation for N <= 5, seeded random orders beyond; " +
 			"run free, with seeded random delays at the server's schedule points, and with a congested transport (short writes, delays between them) so recycled reply buffers are re-packed while " +
 			"older replies are still being written; some requests are answered twice or with errors. After a quiescence barrier (no pending request, sentinel answered) the wire is judged: " +
@@ -102,8 +102,12 @@ func c03Cases(tier string, seed int64) []core.Case {
 					return c03Run(ctx.Seed, n, permutations(n), v, dotu)
 				}})
 			}
-			for _, n := range []int{8, 16, 33, 64} {
+			// (the statement's "no matter how many": also more than the 64 reply buffers the connection keeps)
+			for _, n := range []int{8, 16, 33, 64, 66, 100, 200} {
 				n := n
+				if n > 64 && vi > 1 {
+					continue
+				}
 				cases = append(cases, core.Case{ID: fmt.Sprintf("rand/n=%d/%s/dotu=%v", n, v.name, dotu), Run: func(ctx *core.Ctx) core.Result {
 					r := core.NewRand(ctx.Seed, fmt.Sprintf("c03/%d/%s/%v", n, v.name, dotu))
 					var orders [][]int
